@@ -40,7 +40,7 @@ def verifiers(prog):
     out = []
     for fn in prog.all:
         base = fn.name.split("__")[-1]
-        if re.match(r"^cp_\w+_ver$", base) or base in PADS:
+        if re.match(r"^cp_\w+_(ver|onv)$", base) or base in PADS:
             out.append(fn)
     return out
 
